@@ -78,7 +78,7 @@ inductive StepP (ms0 : List Macro) (st s2 : St) : Prop where
       (h4 : Link (tblF ms0) (absP ms0 st) [(s2.rt.kind, s2.rt.lit)] (absP ms0 s2))
   | eof (h1 : s2.rb = false) (h2 : s2.rt.kind = .TEOF) (h3 : absP ms0 st = [])
 
-theorem stepP (ms0 : List Macro) (hTb : TblOK ms0) (k : Nat) (st s1 s2 : St) (g : GoodP ms0 st)
+theorem stepP (ms0 : List Macro) (hTb : TblOKS ms0) (k : Nat) (st s1 s2 : St) (g : GoodP ms0 st)
     (ht : TextP ms0 st.raw) (hr : exec k .rawnext st = .ok s1) (he : exec k (.expand s1.rt) s1 = .ok s2) :
     GoodP ms0 s2 ∧ TextP ms0 s2.raw ∧ StepP ms0 st s2 := by
   obtain ⟨g1, hR⟩ := rawnextP ms0 k st s1 g (fun t r hh => textP_head (by rw [← hh]; exact ht)) hr
@@ -160,7 +160,7 @@ theorem stepP (ms0 : List Macro) (hTb : TblOK ms0) (k : Nat) (st s1 s2 : St) (g 
       simp [absP, absX, h5, h2, absRawP_nil]
 
 /-- **One call of `next()`** on a good state -/
-theorem next_simP (ms0 : List Macro) (hTb : TblOK ms0) : ∀ (n : Nat) (st st' : St), GoodP ms0 st → TextP ms0 st.raw →
+theorem next_simP (ms0 : List Macro) (hTb : TblOKS ms0) : ∀ (n : Nat) (st st' : St), GoodP ms0 st → TextP ms0 st.raw →
     exec n .next st = .ok st' →
     GoodP ms0 st' ∧ TextP ms0 st'.raw ∧ st'.tok = toKeyword st'.rt ∧
     ((st'.rt.kind = .TEOF ∧ Link (tblF ms0) (absP ms0 st) [] []) ∨
@@ -210,7 +210,7 @@ theorem next_simP (ms0 : List Macro) (hTb : TblOK ms0) : ∀ (n : Nat) (st st' :
           rw [h3]; exact Link.refl _ _
 
 /-- **The whole stream** -/
-theorem run_simP (ms0 : List Macro) (hTb : TblOK ms0) : ∀ (n : Nat) (st : St), GoodP ms0 st → TextP ms0 st.raw →
+theorem run_simP (ms0 : List Macro) (hTb : TblOKS ms0) : ∀ (n : Nat) (st : St), GoodP ms0 st → TextP ms0 st.raw →
     (run n st).2 = none →
     ∃ L, L.map kwKey = runKeys (run n st).1 ∧ Link (tblF ms0) (absP ms0 st) L [] := by
   intro n
@@ -239,7 +239,7 @@ theorem run_simP (ms0 : List Macro) (hTb : TblOK ms0) : ∀ (n : Nat) (st : St),
           refine ⟨(st1.rt.kind, st1.rt.lit) :: L, ?_, hl.trans hlink⟩
           rw [runKeys_cons _ _ (run_ne_nil n st1 h), List.map_cons, hL, htok, toKeyword_key]
 
-theorem goodP_init (ms0 : List Macro) (raw : List Tok) (hTb : TblOK ms0) (hhide : ∀ m ∈ ms0, m.hide = false) :
+theorem goodP_init (ms0 : List Macro) (raw : List Tok) (hTb : TblOKS ms0) (hhide : ∀ m ∈ ms0, m.hide = false) :
     GoodP ms0 { raw := raw, macros := ms0 } :=
   ⟨rfl, ⟨hTb.names, List.nodup_nil, (by intro m hm; simp [liveNames, hhide m hm]), rfl⟩,
    (by intro f hf; cases hf), (by intro t ht; cases ht), (by intro L hL; cases hL), rfl, rfl⟩
